@@ -236,6 +236,26 @@ def nondecimal_letter_classes(prog, S, model):
     f = prog.fn("scpiLex_NondecimalNumericData")
     if f is None:
         return None
+    # by evaluation over the complete byte domain: the class assigned to "#<b>0" for every byte b, and for each class the
+    # bytes d for which "#<letter><d>" is consumed whole - whatever dispatches (if-chain, switch, table of function pointers)
+    from sa import interp as I
+    unknown = prog.enumconst.get("SCPI_TOKEN_UNKNOWN")
+    try:
+        out = {}
+        for b in range(256):
+            r, tok, used = I.lex_on(prog, f.name, bytes([ord("#"), b, ord("0")]))
+            if r == 3 and tok.get("type") not in (None, unknown):
+                out.setdefault(tok["type"], [set(), None, set()])[0].add(b)
+        for cls, ent in out.items():
+            letter = sorted(ent[0])[0]
+            for d in range(256):
+                r, tok, used = I.lex_on(prog, f.name, bytes([ord("#"), letter, d]))
+                if r == 3:
+                    ent[2].add(d)
+        if out:
+            return {cls: (ent[0], None, ent[2]) for cls, ent in out.items()}
+    except I.Stuck:
+        pass
     pg = S.pg(f)
     adv = K.ordinal_sites([s_["node"] for s_ in model.sites.get(f.name, []) if s_["kind"] == "advance"])
     out = {}
@@ -327,6 +347,13 @@ def rule_t4(ck, prog, S, model, only=None):
                     same, detail = None, str(e)
                     break
                 wants_ = {frozenset(CS.parse_class(e_, q)) for e_ in exprs}
+                if gots_ != wants_ and f.name == "scpiLex_NondecimalNumericData":
+                    # a data-driven dispatch (table of letters and digit recognisers): the letter sets per token class
+                    # by evaluation over all bytes
+                    lc_ = nondecimal_letter_classes(prog, S, model) or {}
+                    ev_ = {frozenset(v_[0]) for v_ in lc_.values() if len(v_) > 2 and v_[0]}
+                    if ev_:
+                        gots_ = ev_
                 if gots_ != wants_:
                     same = False
                     detail = "advances over %s, listed %s" % (sorted(show(set(x)) for x in gots_), sorted(show(set(x)) for x in wants_))
